@@ -84,6 +84,14 @@ def unit(rng, target, n):
             # the truth value of a floating constant is "compares unequal to 0", not "has a non-zero bit": negative zero is false, the smallest subnormal is true
             ('long long xnz[] = { 1 && -0.0, 0 || -0.0, (1 && -0.0) ? 10 : 20, -0.0 && 1, -0.0 || 0, !-0.0, -0.0 ? 1 : 2, 1 && 0.0, 0 || -0.0f, 1 && 1e-320, 0 || 0x1p-1074, (_Bool)-0.0, (_Bool)1e-320, -0.0 == 0, '
              '1 && (0.0 * -1), 0 || (0.0f / -5), (1 || -0.0) + (0 && -0.0), 2 && -0.0f ? 3 : 4, !(0 || -0.0), -0.0f ? 5 : 6, 1 && 1e-46f, (_Bool)(float)1e-46, (_Bool)-0.0f, !1e-320 };', ['xnz'], None),
+            # constants stored into bit-fields wider than 32 bits keep all their bits
+            ('struct { long a : 40; unsigned long b : 4, c : 60; } xbf = { -2, 9, 0xfedcba987654321 }; struct { unsigned char p; long q : 33; unsigned long r : 23; } xbg = { 1, -0x98765432, 0x7ffffe }; '
+             'struct { unsigned long u : 64; long s : 63; } xbh = { 0xfedcba9876543210, -0x3edcba9876543210 };', ['xbf', 'xbg', 'xbh'], None),
+            # offsetof and sizeof are size_t values: arithmetic on them is unsigned and 64 bits wide
+            ('struct xos { char a; long b; char c[3]; }; long long xof[] = { 0 - __builtin_offsetof(struct xos, b) < 0, (__builtin_offsetof(struct xos, a) - __builtin_offsetof(struct xos, b)) / 2 == 0x7ffffffffffffffc, '
+             '(0 - __builtin_offsetof(struct xos, b)) >> 60, __builtin_offsetof(struct xos, c[1]) - 18 > 0, -1 < __builtin_offsetof(struct xos, b), sizeof(char[(__builtin_offsetof(struct xos, b) - 9 < 0) + 1]), '
+             '0 - sizeof(struct xos) < 0, (0 - sizeof(int)) >> 62, -1 < sizeof(char), _Alignof(long) - 9 > 0, (0 - _Alignof(int)) / 4 == 0x3fffffffffffffff, sizeof(sizeof(int)), sizeof(__builtin_offsetof(struct xos, b)) };', ['xof'], None),
+            ('struct xot { char a; long b; }; double xod[] = { 0 - __builtin_offsetof(struct xot, b), 0 - sizeof(struct xot), (double)(0 - _Alignof(long)), (float)(0 - __builtin_offsetof(struct xot, b)) };', ['xod'], None),
             # 64-bit integers beside the midpoint of two floats or doubles: one rounding, straight to the target type (the references decide)
             ('float xfc[] = { (float)0x100000100000001, (float)0x20000000000001, (float)0xfffffffffffffbff, (float)0x8000000000000400, (float)16777217, (float)-16777217, (float)9007199254740993, '
              '(float)0xffffff7fffffffff, (float)-0x100000100000001ll, 0x100000100000001, 0x7fffffbfffffffff, -0x7fffffbfffffffff, 0x4000001fffffffff };', ['xfc'], None),
